@@ -476,6 +476,18 @@ def main(argv=None):
     from sim import engine
     from worlds import get_world
 
+    # diagnosis aids: `kill -USR1 <pid>` dumps all Python stacks; a check that
+    # is still alive long after every budget has passed dumps them and exits
+    # (non-zero: never a verdict)
+    import signal as _signal
+
+    faulthandler.enable()
+    try:
+        faulthandler.register(_signal.SIGUSR1, all_threads=True)
+    except (AttributeError, ValueError):
+        pass
+    faulthandler.dump_traceback_later(4 * 3600, exit=True)
+
     world_cls = get_world(args.prop)
     prop = world_cls.PROP
 
